@@ -117,6 +117,16 @@ func (c *DriveCtx) Exec(spec *RunSpec) *Result {
 		res.Viol = res.Sim.Viol
 	}
 	c.account(res)
+	if d := os.Getenv("VERIF_DUMP_GEN"); d != "" && strings.Contains(spec.Gen, d) {
+		// debugging aid (never set by a registered command): keep the spec and the outcome of matching runs
+		var st []string
+		for _, t := range res.Sim.tasks {
+			st = append(st, fmt.Sprintf("%s handled=%v err=%v status=%d panic=%v", t.ID, t.Handled, t.Err, func() int { if t.Rec == nil { return -1 }; return t.Rec.Status }(), t.Panic))
+		}
+		f, _ := os.OpenFile("/tmp/verif-dump.jsonl", os.O_APPEND|os.O_CREATE|os.O_WRONLY, 0644)
+		fmt.Fprintf(f, "%s\n", mustJSON(J{"gen": spec.Gen, "tasks": st, "spec": spec}))
+		f.Close()
+	}
 	return res
 }
 
